@@ -1,0 +1,76 @@
+//go:build verif
+
+// Contracts for the verification machinery in /verif (govc). This file is only compiled with -tags verif;
+// it adds no behaviour to the package. Syntax: see /verif/DESIGN.md, Appendix A.
+//
+// C01 (owner: con-c01b): soundness of the client-side verifier of document proofs, VerifyDocument.
+package verification
+
+import (
+	"crypto/sha256"
+
+	"github.com/codenotary/immudb/pkg/api/protomodel"
+	"github.com/codenotary/immudb/pkg/api/schema"
+)
+
+// verifAssume / verifAssert are the harness primitives: govc treats them as assumption and obligation;
+// natively (replays) a violated assertion panics with its label.
+func verifAssume(c bool) {
+	if !c {
+		panic("verifAssume: precondition of the harness not met")
+	}
+}
+
+func verifAssert(label string, c bool) {
+	if !c {
+		panic("verifAssert violated: " + label)
+	}
+}
+
+// The three wire headers of a document proof: the source and target headers of the dual proof and the header of the
+// transaction that carries the document entry.
+func spec_src(p *protomodel.ProofDocumentResponse) *schema.TxHeader {
+	return p.VerifiableTx.DualProof.SourceTxHeader
+}
+
+func spec_tgt(p *protomodel.ProofDocumentResponse) *schema.TxHeader {
+	return p.VerifiableTx.DualProof.TargetTxHeader
+}
+
+func spec_txh(p *protomodel.ProofDocumentResponse) *schema.TxHeader {
+	return p.VerifiableTx.Tx.Header
+}
+
+// spec_dig: a 32-byte hash held in a byte slice, as a value (same conversion as schema.DigestFromProto).
+func spec_dig(b []byte) [sha256.Size]byte {
+	var d [sha256.Size]byte
+	copy(d[:], b)
+	return d
+}
+
+// VerifyDocument, soundness (err == nil ==> ...), over the arguments and the result only. schema.Ghost_HdrAlh(h) is the
+// accumulated hash Alh of the store header the wire header h converts to (see pkg/api/schema/zz_verif_contracts_c01b.go).
+//   state_*  : the returned state is (target id, Alh of the target header).
+//   known_*  : the caller's trusted state is the source or the target of the proof and carries exactly that header's
+//              Alh: in particular a state for the same tx id never changes its hash (known_target). Without a trusted
+//              state the proof must start at the first transaction (first).
+//   tx_*     : the transaction that carries the document is the source or the target transaction, and its header has
+//              the Alh of EVERY header of the dual proof that has its id (both, when source id == target id).
+//   dual_*   : witnesses that the dual proof went through store.VerifyDualProofV2 with these ids and hashes.
+// The wire messages are read in the state at return (VerifyDocument does not write its arguments; no frame is claimed).
+//@ func VerifyDocument
+//@   ensures state_id: r1 == nil ==> r0 != nil && r0.TxId == spec_tgt(proof).Id
+//@   ensures state_hash: r1 == nil ==> len(r0.TxHash) == 32 && spec_dig(r0.TxHash) == schema.Ghost_HdrAlh(spec_tgt(proof))
+//@   ensures known_target: r1 == nil && knownState != nil && knownState.TxId == spec_tgt(proof).Id ==> eqBytes(knownState.TxHash, r0.TxHash)
+//@   ensures known_source: r1 == nil && knownState != nil && knownState.TxId == spec_src(proof).Id ==>
+//@        len(knownState.TxHash) == 32 && spec_dig(knownState.TxHash) == schema.Ghost_HdrAlh(spec_src(proof))
+//@   ensures known_one_of: r1 == nil && knownState != nil && knownState.TxId != 0 ==>
+//@        knownState.TxId == spec_src(proof).Id || knownState.TxId == spec_tgt(proof).Id
+//@   ensures first: r1 == nil && (knownState == nil || knownState.TxId == 0) ==> spec_src(proof).Id == 1
+//@   ensures tx_one_of: r1 == nil ==> spec_txh(proof).Id == spec_src(proof).Id || spec_txh(proof).Id == spec_tgt(proof).Id
+//@   ensures tx_source: r1 == nil && spec_txh(proof).Id == spec_src(proof).Id ==>
+//@        schema.Ghost_HdrAlh(spec_txh(proof)) == schema.Ghost_HdrAlh(spec_src(proof))
+//@   ensures tx_target: r1 == nil && spec_txh(proof).Id == spec_tgt(proof).Id ==>
+//@        schema.Ghost_HdrAlh(spec_txh(proof)) == schema.Ghost_HdrAlh(spec_tgt(proof))
+//@   ensures dual_order: r1 == nil ==> spec_src(proof).Id != 0 && spec_src(proof).Id <= spec_tgt(proof).Id
+//@   ensures dual_linking: r1 == nil ==> spec_src(proof).BlTxId == spec_src(proof).Id-1 && spec_tgt(proof).BlTxId == spec_tgt(proof).Id-1
